@@ -799,3 +799,6 @@ func (w *World) Seq() uint64 { return w.seq }
 
 // EncodeFrame encodes a frame with the reference codec (exported for scenarios).
 func EncodeFrame(compression string, frm *frame.Frame) []byte { return encodeFrame(compression, frm) }
+
+// DecodeFrame decodes a frame with the reference codec (exported for scenarios).
+func DecodeFrame(compression string, raw []byte) (*frame.Frame, error) { return decodeFrame(compression, raw) }
